@@ -5,6 +5,8 @@
 import Dlismodel.Model.Prim
 import Dlismodel.Model.Seg
 import Dlismodel.Model.Parse
+import Dlismodel.Model.Eflr
+import Dlismodel.Model.ParseEflr
 namespace Dlis
 
 def hexDigit (n : Nat) : Char := if n < 10 then Char.ofNat (48 + n) else Char.ofNat (87 + n)
@@ -56,6 +58,101 @@ def showRec (r : Rec) : String := s!"{showBool r.isEflr}:{r.type}:{hexOrDash r.b
 def showSeg (s : PSeg) : String :=
   s!"{showBool s.eflr}:{s.type}:{showBool s.pred}:{showBool s.succ}:{hexOrDash s.payload}"
 
+/-! ### tokens of an EFLR set description -/
+
+def optCps (s : String) : Option (Option PStr) :=
+  if s == "~" then some none else (parseCps s).map some
+
+def parseAVal (s : String) : Option AVal :=
+  match s.splitOn ":" with
+  | ["i", v] => v.toInt?.map AVal.int
+  | ["b", v] => some (AVal.bool (v == "1"))
+  | ["d", v] => v.toNat?.map AVal.f64
+  | ["s", v] => v.toNat?.map AVal.f32
+  | ["t", v] => (parseCps v).map AVal.str
+  | ["T", v] =>
+    match (v.splitOn ",").map String.toInt? with
+    | [some y, some mo, some d, some h, some mi, some se, some us] =>
+      some (AVal.dtime { year := y, month := mo.toNat, day := d.toNat, hour := h.toNat, minute := mi.toNat,
+                         second := se.toNat, micro := us.toNat })
+    | _ => none
+  | ["o", st, o, c, n] =>
+    match parseCps st, o.toInt?, c.toInt?, parseCps n with
+    | some st, some o, some c, some n => some (AVal.obj st { origin := o, copy := c, name := n })
+    | _, _, _, _ => none
+  | _ => none
+
+def takeVals : Nat → List String → Option (List AVal × List String)
+  | 0, ts => some ([], ts)
+  | n + 1, t :: ts => do
+    let v ← parseAVal t
+    let (vs, r) ← takeVals n ts
+    pure (v :: vs, r)
+  | _, _ => none
+
+def takeAttr : List String → Option (Option AttrSt × List String)
+  | "~" :: ts => some (none, ts)
+  | "A" :: rc :: u :: il :: n :: ts => do
+    let rc ← if rc == "~" then some none else rc.toNat?.map some
+    let u ← optCps u
+    let n ← n.toNat?
+    let (vs, r) ← takeVals n ts
+    pure (some { rc := rc, units := u, isList := il == "1", vals := vs }, r)
+  | _ => none
+
+def takeAttrs : Nat → List String → Option (List (Option AttrSt) × List String)
+  | 0, ts => some ([], ts)
+  | n + 1, ts => do
+    let (a, r) ← takeAttr ts
+    let (as, r') ← takeAttrs n r
+    pure (a :: as, r')
+
+def takeObjs : Nat → List String → Option (List ObjDesc × List String)
+  | 0, ts => some ([], ts)
+  | n + 1, o :: c :: nm :: na :: ts => do
+    let o ← o.toInt?
+    let c ← c.toInt?
+    let nm ← parseCps nm
+    let na ← na.toNat?
+    let (as, r) ← takeAttrs na ts
+    let (os, r') ← takeObjs n r
+    pure ({ name := { origin := o, copy := c, name := nm }, attrs := as } :: os, r')
+  | _, _ => none
+
+def takeLabels : Nat → List String → Option (List PStr × List String)
+  | 0, ts => some ([], ts)
+  | n + 1, t :: ts => do
+    let l ← parseCps t
+    let (ls, r) ← takeLabels n ts
+    pure (l :: ls, r)
+  | _, _ => none
+
+def parseSetDesc (ts : List String) : Option SetDesc :=
+  match ts with
+  | ty :: nm :: nl :: rest => do
+    let ty ← parseCps ty
+    let nm ← optCps nm
+    let nl ← nl.toNat?
+    let (ls, r) ← takeLabels nl rest
+    match r with
+    | no :: r' => do
+      let no ← no.toNat?
+      let (os, r'') ← takeObjs no r'
+      if r''.isEmpty then pure { type := ty, name := nm, labels := ls, objects := os } else none
+    | [] => none
+  | _ => none
+
+def showDAttr : Option DAttr → String
+  | none => "~"
+  | some a => s!"{a.count}:{a.rc}:{hexOrDash a.units}:" ++ (if a.vals.isEmpty then "-" else ",".intercalate (a.vals.map hexOrDash))
+
+def showDSet (d : DSet) : String :=
+  let nm := match d.name with | some n => hexOrDash n | none => "~"
+  let t := " ".intercalate (d.template.map fun t => s!"{hexOrDash t.label}:{t.count}:{t.rc}:{hexOrDash t.units}")
+  let os := " ".intercalate (d.objects.map fun o =>
+    s!"O{o.name.origin},{o.name.copy},{hexOrDash o.name.name}|" ++ ";".intercalate (o.attrs.map showDAttr))
+  s!"ok type={hexOrDash d.type} name={nm} T[{t}] {os}"
+
 def handle (ws : List String) : String :=
   match ws with
   | ["U", k, v] => match k.toNat?, v.toInt? with
@@ -81,6 +178,16 @@ def handle (ws : List String) : String :=
   | ["objref", t, o, c, n] => match parseCps t, o.toInt?, c.toInt?, parseCps n with
     | some t, some o, some c, some n => showRes (encObjref t { origin := o, copy := c, name := n })
     | _, _, _, _ => "bad"
+  | "eflr" :: rest => match parseSetDesc rest with
+    | some sd => showRes (setBody sd) | none => "bad"
+  | ["fh", o, c, n, sq, hid] => match o.toInt?, c.toInt?, parseCps n, sq.toInt?, parseCps hid with
+    | some o, some c, some n, some sq, some hid => showRes (fileHeaderBody { origin := o, copy := c, name := n } sq hid)
+    | _, _, _, _, _ => "bad"
+  | ["peflr", h] => match bytesOfHex h with
+    | some bs => match parseEflr bs with | some d => showDSet d | none => "none"
+    | none => "bad"
+  | ["val", rc, v] => match rc.toNat?, parseAVal v with
+    | some rc, some v => showRes (encVal rc v) | _, _ => "bad"
   | ["bits", k, v] => match k.toNat?, v.toNat? with
     | some k, some v => if v < 256 ^ k then "ok " ++ hexOrDash (beN k v) else "err struct" | _, _ => "bad"
   | ["ms", us] => match us.toNat? with
